@@ -10,12 +10,16 @@ mod pool;
 mod props;
 mod refenc;
 mod relstage;
+#[cfg(feature = "render")]
 mod render;
+#[cfg(feature = "render")]
 mod sanit;
 mod selfcheck;
 mod stats;
+#[cfg(feature = "render")]
 mod svgcheck;
 mod symbol;
+mod termcheck;
 
 use fw::{Ctx, Tier};
 
@@ -33,11 +37,15 @@ fn seed() -> u64 {
 
 fn run_prop(id: &str, ctx: &Ctx) -> Option<fw::Report> {
     Some(match id {
+        #[cfg(feature = "render")]
         "C19" => props::c19::run(ctx),
+        #[cfg(feature = "render")]
         "C14" => props::c14::run(ctx),
-        #[cfg(feature = "hooks")]
+        #[cfg(all(feature = "hooks", feature = "render"))]
         "C17" => props::c17::run(ctx),
+        #[cfg(feature = "render")]
         "C13" => props::c13::run(ctx),
+        #[cfg(feature = "render")]
         "C18" => props::c18::run(ctx),
         "C01" => props::c01::run(ctx),
         "C02" => props::c02::run(ctx),
@@ -51,6 +59,7 @@ fn run_prop(id: &str, ctx: &Ctx) -> Option<fw::Report> {
         #[cfg(feature = "hooks")]
         "C07" => props::c07::run(ctx),
         "C11" => props::c11::run(ctx),
+        #[cfg(feature = "render")]
         "C12" => props::c12::run(ctx),
         "C16" => props::c16::run(ctx),
         "C15" => props::c15::run(ctx),
@@ -60,11 +69,15 @@ fn run_prop(id: &str, ctx: &Ctx) -> Option<fw::Report> {
 
 fn replay_prop(id: &str, ctx: &Ctx, job: &serde_json::Value) -> Option<stats::Stats> {
     match id {
+        #[cfg(feature = "render")]
         "C19" => props::c19::replay(ctx, job),
+        #[cfg(feature = "render")]
         "C14" => props::c14::replay(ctx, job),
-        #[cfg(feature = "hooks")]
+        #[cfg(all(feature = "hooks", feature = "render"))]
         "C17" => props::c17::replay(ctx, job),
+        #[cfg(feature = "render")]
         "C13" => props::c13::replay(ctx, job),
+        #[cfg(feature = "render")]
         "C18" => props::c18::replay(ctx, job),
         "C01" => props::c01::replay(ctx, job),
         "C02" => props::c02::replay(ctx, job),
@@ -78,6 +91,7 @@ fn replay_prop(id: &str, ctx: &Ctx, job: &serde_json::Value) -> Option<stats::St
         #[cfg(feature = "hooks")]
         "C07" => props::c07::replay(ctx, job),
         "C11" => props::c11::replay(ctx, job),
+        #[cfg(feature = "render")]
         "C12" => props::c12::replay(ctx, job),
         "C16" => props::c16::replay(ctx, job),
         "C15" => props::c15::replay(ctx, job),
@@ -163,6 +177,7 @@ fn main() {
             let code = fw::finish(&ctx, &id, rep, &sc);
             std::process::exit(code);
         }
+        #[cfg(feature = "render")]
         "stage" => {
             // debugging aid: run one sanitizer stage alone
             let ctx = Ctx::new(Tier::Thorough, seed());
@@ -198,9 +213,11 @@ fn main() {
                 println!("INCONCLUSIVE {w}");
             }
         }
+        #[cfg(feature = "render")]
         "c19-child" => {
             std::process::exit(props::c19::child_main(args.get(2).map(|s| s.as_str()).unwrap_or(""), args.get(3).map(|s| s.as_str()).unwrap_or("")));
         }
+        #[cfg(feature = "render")]
         "c14-child" => {
             let g = |i: usize| args.get(i).and_then(|s| s.parse::<u64>().ok()).unwrap_or(0);
             std::process::exit(props::c14::child_main(g(2), g(3) as usize, g(4) as usize));
